@@ -21,6 +21,11 @@ RULE = ('T2: int(bytes), Headers.element("Range") (Range.parse + prevent_denial_
 	'Oracle: the slice / multipart statement directly on the prepared response; which sets of closed ranges must be served is decided by an independent exact-rational restatement of the documented '
 	'admission rule (no two ranges sharing two or more octets, population variance of the range lengths <= 4): admitted and disjoint -> 206 multipart with exactly the slices, refused -> 416 with the complete representation. '
 	'Every Range value outside the RFC 7233 grammar (own regex; white space tolerated around elements, positions and the dash) must not be answered with 206; a unit other than bytes (any case) is never served, and is ignored altogether for a single closed range. '
+	'Strengthening round (kind px, plus slice cases with a file position / a second use): the same final data (Range value, representation, Content-Type) reaching prepare() through every public way and object history - '
+	'body as bytes / bytearray / str / BytesIO / written BytesIO / response.body.write / Body / real file / reassigned, at every file position, serialised before, one file object serving earlier messages; the Range field set, replaced, popped, updated, appended as two fields, parsed, '
+	'given as text, received on the wire (name case, OWS, obs-fold after commas, two fields, fragmented) or on a Request that served another response; Unicode normalisation forms and look-alikes in the body text, the Content-Type and the Range text; '
+	'representation / slice / position-spelling lengths around 11..65537, digit-count changes of positions, 2..256 ranges; every codec media type, method and status of the registries read from the tree, field names in five letter cases; degenerate range sets, validators, media types and bodies; '
+	'a 206 is serialised twice, prepared twice and read back (own reader + ClientStateMachine in fragments) and must not move; a 206 must carry the right octets even where none is demanded; get_range_content must yield the slices wherever the file position was. '
 	'non-trivial = distinct (kind, input) reaching 206, 416 or a refused precondition')
 EXHAUSTIVE = {'quick': False, 'thorough': False}
 TRUSTED = ['harness/tables/elemlex.py + harness/tables/range.py (T1: bytes.strip set, int() octet classes, bytes.isdigit class, the two variant probes and the octet class / pinned pattern of Range.RE_UNIT, pinned split patterns, TSPECIALS, part-header template, BytesIO clamping probes)',
@@ -185,7 +190,7 @@ def _repaired_families(rng):
 	return out
 
 
-def gen_cases(rng, tier):
+def _gen_cases_base(rng, tier):
 	big = tier == 'thorough'
 	cases = []
 	# int(bytes)
@@ -314,6 +319,333 @@ def gen_cases(rng, tier):
 	return cases
 
 
+# ---------------------------------------------------------------------------------------------------------------------------------
+# Strengthening round (classes of seeded changes, not single patches).  New case kind 'px' = 'prep' plus a description of HOW the
+# request / response / body objects reach prepare(): the expectation is always what fresh objects built from the same final data
+# (Range field value v, representation d, Content-Type ct) give, so the ordinary oracle below is applied to (v, d, ct).
+#   bk     how the representation becomes the body: bytes | bytearray | str | bio (BytesIO(d)) | biow (BytesIO filled by write()) |
+#          bodyw (response.body.write) | bodyobj (Body(d)) | file (tempfile, written) | reassign (another body first)
+#   pieces number of write() calls; opos = seek of the file object before it is assigned ('end' or offset); bpos / bread = seek / read
+#          through response.body after the assignment; pre_ser = the body is serialised once before prepare()
+#   prior  Range values (None = no Range field) of earlier messages served from the SAME file object (prior_ser: and serialised)
+#   rk     how the Range field reaches the request: set | str | replace | pop | reuse (the Request object served another response before) |
+#          update | setdefault | hset (Headers.set) | ctor (Request(headers=...)) | append (two fields) | parse (Headers.parse) | wire (octets through ServerStateMachine, raw / frag)
+#   rn     spelling of the field name; vk = validators [[name, value], ...]; me = request method; st0 = status set by the application
+#   noexp  no expectation whether the range is served (degenerate validator) - but a 206 must still carry the right octets
+#   rt     the prepared response is serialised and read back (own reader + ClientStateMachine in fragments)
+#   m      1: the Gallina model covers the final data (CPrep), otherwise the case is oracle-only
+LIMITS = [11, 12, 75, 76, 255, 256, 1023, 1024, 4095, 4096, 4097, 8190, 8191, 8192, 8193, 65535, 65536, 65537]
+def _u(*cps):
+	return u''.join(c if isinstance(c, str) else chr(c) for c in cps)
+
+
+# (code points given numerically: composed / decomposed pairs, U+212B U+2126 U+212A next to their look-alikes, Hangul syllables / jamo, compatibility
+# ideographs and their unified forms, astral characters, multi-mark sequences, ligatures / special casing, non-ASCII digits, odd blanks)
+UNI_TEXTS = [_u(0xe9, 'l', 0xe8, 've'), _u('e', 0x301, 'le', 0x300, 've'), _u(0xc5, 0x3a9, 'K'), _u(0x212b, 0x2126, 0x212a), _u('A', 0x30a, 0x3a9, 'K'), _u(0xd55c, 0xae00), _u(0x1112, 0x1161, 0x11ab, 0x1100, 0x1173, 0x11af),
+	_u(0xf900, 0xfa0e, 0xfa30), _u(0x8c48, 0x66f4, 0x4fae), _u(0x2f800, 0x4e3d), _u(0x1f600, 0x20000, 0x10ffff, 0x10000), _u(0x1ea0, 0x30a, ' ', 'a', 0x323, 0x30a, ' ', 'A', 0x30a, 0x323), _u(0xfb01, 0x17f, 0xdf, 0x130, 0x131, 0x1e9e),
+	_u(0xff11, 0xff12, '-', 0xff13, 0x661, 0x662, 0x967), _u(0x1e9b, 0x323, ' ', 0x17f, 0x323, 0x307), _u(0x958, 0x915, 0x93c), _u(0xa0, 0x2002, 0x3000, 'x', 0xfeff, 0x200b, 0x85, 0x2028),
+	_u('line\r\n', 'e', 0x301, '\nx\r', 0x212b, '\n\n'), _u(0x3b0, 0x3c5, 0x308, 0x301, 0x1fe3), _u(0x1100, 0x1161, 0xac00, 0x11a8, 0xac01)]
+UNI_CTYPES = [_u('text/plain; title="', 0xe9, '"'), _u('text/plain; title="e', 0x301, '"'), _u('text/plain; title="', 0x212b, 0x2126, 0x212a, '"'), _u('text/plain; title="', 0xc5, '"'), _u('text/plain; title="', 0xd55c, '"'),
+	_u('text/plain; title="', 0x1112, 0x1161, 0x11ab, '"'), _u('text/plain; title="', 0xf900, '"'), _u('text/plain; title="', 0x1f600, '"'), _u('text/pl', 0x212a, 'in'), _u('te', 0x445, 't/plain'), _u('application/j', 0x17f, 'on; x="', 0xfb01, '"'),
+	_u('image/png; n="', 0xff11, '"'), _u('text/plain; charset=UTF-8; title="', 0x3a9, '"'), _u('TEXT/PLAIN; t="', 0x130, '"')]
+UNI_RANGES = [_u('bytes=', 0xff12, '-', 0xff15), _u('bytes=', 0x662, '-', 0x665), _u('byte', 0x17f, '=2-5'), _u(0x212a, 'ytes=2-5'), _u('bytes=2-5', 0x301), _u('bytes=2', 0x2013, '5'), _u('bytes=2', 0x2212, '5'), _u('bytes=2', 0x2010, '5'),
+	_u('bytes=2', 0xff0d, '5'), _u('bytes', 0xff1d, '2-5'), _u('bytes=2-5', 0xff0c, '8-11'), _u('bytes=2-5,', 0x1f600), _u('bytes=', 0xb2, '-5'), _u('bytes=2-', 0x2075), _u('bytes=', 0x2460, '-5'), _u('bytes=2-5', 0x200b), _u('bytes=', 0xfeff, '2-5'),
+	_u('bytes=2-5', 0xa0), _u('bytes=', 0x3000, '2-5'), _u('b', 0x443, 'tes=2-5'), _u('bytes=', 0x1d7d0, '-', 0x1d7d3), _u('bytes=2-5', 0x85), _u('bytes=2', 0xad, '-5'), _u('bytes=2-5', 0x2028), _u('bytes=2-5,', 0x3000, '8-11'), _u('bytes=', 0x967, '-', 0x96b)]
+DEG_SETS = [b'', b' ', b'\t', b',', b',,', b' , ', b'-', b'--', b'-,-', b'- -', b'=', b'==', b'"', b'""', b'"-"', b'"1-2', b'1-2"', b'"1-2"', b"'1-2'", b'1-2,', b',1-2', b'1-2,,4-5', b'1-2, ,4-5', b'1-2,4-5,', b',,1-2',
+	b'1-2;', b';', b'1-2;q', b'1-2;q=1', b'1-,', b',-2', b'-2,', b'1-2 4-5', b'1-2\t', b'\t1-2', b'1--2', b'1-2-', b'-1-2', b'1-2,-', b'1-2,"', b'1-2,"4-5', b'1-2,4-5"', b'1-2,"4-5"', b'(1-2)', b'1-2,()', b'\\', b'1-2\\,4-5', b'1-2,\\',
+	b'1-2, 4-5', b'1-2 ,4-5', b'1-2\t,\t4-5', b'1-2,=4-5', b'1-2=4-5', b'=1-2', b'1=2', b'1-2,bytes=4-5', b'bytes=1-2', b'1-2,,', b'1-2 , , 4-5', b'- 2', b'1 -', b' - ', b'1-2\n', b'1-2,\n4-5', b'*', b'*/*', b'1-*', b'*-2', b'0-0,1-1', b'00-01']
+DEG_ETAGS = ['', ' ', '"', '""', 'W/', 'W/""', ',', '"a', 'a"', '*', '\t']
+DEG_LASTMOD = ['', ' ', 'x', '0', ',', '-1', 'Wed, 30 Sep 2026', '"']
+DEG_CTYPES = [' ', ';', 'text/plain;', 'text/plain;;', 'text/plain; charset="', '/', 'text/', '/plain', '"', ',', 'a/b, c/d', 'text/plain ; charset = x', 'text', 'text/plain; =', 'text/plain; a="b', '*/*', 'text/*']
+CRLF_DATA = b'one\ntwo\rthree\r\nfour\n\nfive\r\r\n\n\rsix\r'
+
+
+def _registry():
+	"""names the range code can meet, read from the tree under test at run time: codec media types, methods, statuses"""
+	from httoop.codecs import CODECS
+	from httoop.messages.method import Method
+	from httoop.status import STATUSES
+	methods = []
+	for m in tuple(getattr(Method, 'safe_methods', ())) + tuple(getattr(Method, 'idempotent_methods', ())) + ('GET', 'HEAD', 'POST', 'PUT', 'DELETE', 'OPTIONS', 'TRACE', 'CONNECT', 'PATCH'):
+		if m not in methods:
+			methods.append(str(m))
+	return sorted(str(x) for x in CODECS), methods, sorted(int(x) for x in STATUSES if int(x) >= 100)
+
+
+def _px(v, d, ct='text/plain', **kw):
+	c = {'k': 'px', 'v': None if v is None else v.hex(), 'd': d.hex(), 'ct': ct, 'flags': {}}
+	c.update(kw)
+	plain = ct is not None and all(ord(ch) < 128 for ch in ct) and c.get('me', 'GET') == 'GET' and c.get('st0', 200) == 200 and len(d) <= 4096 and not c.get('noexp')
+	names = [n.lower() for n, _ in c.get('vk', [['ETag', 'foo']])]
+	if names == ['last-modified']:
+		c['flags'] = {'noetag': True, 'lastmod': True}
+	elif sorted(names) == ['etag', 'last-modified']:
+		c['flags'] = {'lastmod': True}
+	elif names != ['etag']:
+		plain = False
+	c['m'] = 1 if plain else 0
+	return c
+
+
+def _pick_single(rng, n):
+	f = min(n - 2, rng.choice([0, 0, 1, rng.randint(0, n - 2), rng.randint(0, n - 2), n - 2]))
+	l = rng.choice([n - 1, f + 1, rng.randint(f + 1, n - 1), rng.randint(f + 1, n - 1)])
+	return f, l
+
+
+def _range_value(rng, n, multi):
+	"""(field value, list of requested ranges) for a representation of n octets: one range or 2-3 disjoint similar ones in random order"""
+	rs = _disjoint(rng, n, rng.choice([2, 2, 3])) if multi and n >= 8 else None
+	if not rs:
+		rs = [_pick_single(rng, n)]
+	rng.shuffle(rs)
+	return b'bytes=' + b','.join(b'%d-%d' % x for x in rs), [list(x) for x in rs]
+
+
+def _gen_stateful(rng, big):
+	out = []
+	reps = 3 if big else 1
+
+	def sizes():
+		return [rng.randint(6, 30), rng.randint(6, 30), rng.randint(31, 120), rng.randint(31, 120), rng.choice([255, 256, 300, 1023, 1024]), rng.choice([4095, 4096, 4097, 5000, 8192, 8193])]
+
+	for _ in range(reps):
+		for n in sizes():
+			for multi in (False, True):
+				d = _rdata(rng, n)
+				v, want = _range_value(rng, n, multi)
+				f, l = want[0]
+				offs = lambda: rng.choice([1, f, f + 1, l, l + 1, n - 1, n, n + 3, rng.randint(1, n)])
+				prior = lambda: [rng.choice([None, b'bytes=-3'.hex(), b'bytes=4-'.hex(), _range_value(rng, n, False)[0].hex(), _range_value(rng, n, False)[0].hex(), _range_value(rng, n, True)[0].hex()]) for _ in range(rng.choice([1, 1, 2]))]
+				states = [('bytes', {}), ('bytes', {'bread': offs()}), ('bytes', {'bpos': offs()}), ('bytes', {'bpos': 'end'}), ('bytes', {'pre_ser': 1}), ('bytes', {'pre_ser': 1, 'bread': offs()}),
+					('bytearray', {}), ('bytearray', {'bread': offs()}), ('bio', {}), ('bio', {'opos': offs()}), ('bio', {'opos': 'end'}), ('bio', {'bpos': offs()}), ('bio', {'opos': offs(), 'pre_ser': 1}),
+					('biow', {}), ('biow', {'pieces': rng.randint(2, 5)}), ('biow', {'opos': offs()}), ('biow', {'opos': 0}), ('bodyw', {}), ('bodyw', {'pieces': rng.randint(2, 5)}), ('bodyw', {'bpos': offs()}), ('bodyw', {'bpos': 0}),
+					('bodyobj', {}), ('bodyobj', {'bread': offs()}), ('file', {}), ('file', {'opos': 0}), ('file', {'opos': offs()}), ('file', {'opos': 0, 'bread': offs()}), ('reassign', {}), ('reassign', {'bread': offs()}),
+					('bio', {'prior': prior()}), ('bio', {'prior': prior(), 'prior_ser': 1}), ('biow', {'prior': prior()}), ('file', {'prior': prior(), 'prior_ser': 1}), ('file', {'opos': 0, 'prior': prior()}), ('bio', {'prior': [v.hex()]}),
+					('bio', {'prior': [None], 'prior_ser': 1})]
+				for bk, kw in states:
+					out.append(_px(v, d, rng.choice(CTYPES), bk=bk, want=want, **kw))
+	# the request side: every public way of putting the field there, a field that replaces another one, a Request object that served another response before
+	for _ in range(12 * reps):
+		n = rng.randint(12, 60)
+		d = _rdata(rng, n)
+		for multi in (False, True):
+			v, want = _range_value(rng, n, multi)
+			other = rng.choice([b'bytes=0-1', b'bytes=1-3,5-7', b'bytes=x', b'bits=1-2', b'bytes=-2', _range_value(rng, n, True)[0], v, v])  # (also: the very same field served twice)
+			for rk in ('set', 'str', 'replace', 'reuse', 'parse', 'pop', 'update', 'setdefault', 'hset', 'ctor'):
+				out.append(_px(v, d, rng.choice(CTYPES), rk=rk, other=other.hex(), want=want))
+			if multi and len(want) >= 2:
+				specs = v[len(b'bytes='):].split(b',')
+				cut = rng.randint(1, len(specs) - 1)
+				v2 = b'bytes=' + b','.join(specs[:cut]) + b', ' + b','.join(specs[cut:])
+				out.append(_px(v2, d, rng.choice(CTYPES), rk='append', parts=[(b'bytes=' + b','.join(specs[:cut])).hex(), b','.join(specs[cut:]).hex()], want=want))
+	return out
+
+
+def _gen_unicode(rng, big):
+	out = []
+	for t in UNI_TEXTS:
+		for text in (t, t + u' ' + rng.choice(UNI_TEXTS), rng.choice(UNI_TEXTS) * 2 + t):
+			d = text.encode('utf-8')
+			n = len(d)
+			for multi in (False, False, True):
+				v, want = _range_value(rng, n, multi)
+				out.append(_px(v, d, rng.choice(['text/plain; charset=UTF-8', 'text/plain; charset=utf-8', None, 'text/html; charset=UTF-8']), bk='str', want=want))
+	d = (_u('e', 0x301, ' ', 0x212b, ' ', 0x1112, 0x1161, 0x11ab, ' ', 0xf900, ' ', 0x1f600, ' ') + u'x' * 20).encode('utf-8')
+	for ct in UNI_CTYPES:
+		for multi in (False, True):
+			v, want = _range_value(rng, len(d), multi)
+			out.append(_px(v, d, ct, want=want))
+	for vs in UNI_RANGES:
+		out.append(_px(vs.encode('utf-8'), _rdata(rng, 30), 'text/plain', rk='str'))
+	return out
+
+
+def _gen_lengths(rng, big):
+	out = []
+	for n in LIMITS:
+		d = _rdata(rng, n)
+		rs = {(0, n - 1), (n - 2, n - 1), (0, 1), (1, n - 1), (0, n - 2)}
+		marks = [b for b in LIMITS if b < n]
+		if n > 8193 and not big:
+			marks = [b for b in marks if b in (4095, 4096, 8192, 65535, 65536)]
+		elif not big:
+			marks = marks[-6:]
+		for b in marks:
+			rs.update({(b - 1, b), (0, b - 1), (0, b), (n - b, n - 1)})
+			if b + 1 < n - 1:
+				rs.add((b, n - 1))
+		for f, l in sorted(r for r in rs if 0 <= r[0] < r[1] < n):
+			out.append(_px(b'bytes=%d-%d' % (f, l), d, rng.choice(CTYPES), want=[[f, l]], bk=rng.choice(['bytes', 'bytes', 'bio', 'biow'])))
+	# two / three ranges whose lengths sit on the limits
+	for ln in [11, 12, 75, 76, 255, 256, 1023, 1024, 1365, 4095, 4096, 4097]:
+		for k in (2, 3):
+			gap = rng.choice([0, 1, 5])
+			rs = [(i * (ln + gap) + 1, i * (ln + gap) + ln) for i in range(k)]
+			n = rs[-1][1] + rng.choice([1, 2, 9])
+			rng.shuffle(rs)
+			out.append(_px(b'bytes=' + b', '.join(b'%d-%d' % x for x in rs), _rdata(rng, n), rng.choice(CTYPES), want=[list(x) for x in rs]))
+	# first-byte positions on both sides of a change in the number of decimal digits, in every order
+	for p in [10, 100, 1000, 10000, 100000]:
+		rs = [(p - 3, p - 1), (p + 1, p + 3), (p - 8, p - 6)]
+		d = _rdata(rng, p + rng.choice([4, 5, 30]))
+		for order in itertools.permutations(rs):
+			out.append(_px(b'bytes=' + b','.join(b'%d-%d' % x for x in order), d, 'application/octet-stream', want=[list(x) for x in order]))
+		out.append(_px(b'bytes=%d-%d' % (p - 1, p), d, 'text/plain', want=[[p - 1, p]]))
+	# the number of ranges
+	for k in [2, 3, 4, 5, 8, 9, 10, 11, 16, 17, 32, 33, 64, 100, 256]:
+		ln = rng.choice([2, 2, 3])
+		rs = [(3 * i + 1, 3 * i + ln) if ln < 3 else (4 * i + 1, 4 * i + 3) for i in range(k)]
+		n = rs[-1][1] + 2
+		rng.shuffle(rs)
+		out.append(_px(b'bytes=' + b','.join(b'%d-%d' % x for x in rs), _rdata(rng, n), 'text/plain', want=[list(x) for x in rs]))
+	# long spellings of a position / long blanks (valid: byte positions are 1*DIGIT, white space is tolerated around them)
+	for z in [11, 12, 75, 76, 255, 256, 1023, 1024, 4095, 4096]:
+		d = _rdata(rng, 40)
+		out.append(_px(b'bytes=' + b'0' * z + b'2-5', d, 'text/plain', want=[[2, 5]]))
+		out.append(_px(b'bytes=2-' + b'0' * z + b'5', d, 'text/plain', want=[[2, 5]]))
+		out.append(_px(b'bytes=' + b' ' * z + b'2-5', d, 'text/plain', want=[[2, 5]]))
+		out.append(_px(b'bytes=2-5' + b' ' * z + b',' + b'\t' * z + b'8-11', d, 'text/plain', want=[[2, 5], [8, 11]]))
+	return out
+
+
+def _gen_registries(rng, big):
+	out = []
+	codecs, methods, statuses = _registry()
+	types = []
+	for t in codecs + ['text/css', 'text/x-foo', 'message/rfc822', 'image/png', 'application/octet-stream', 'multipart/byteranges']:
+		t = t.replace('*', 'x-any')
+		if t.startswith('multipart/'):
+			t += '; boundary=frontier'
+		types.extend([t, t.upper(), t.title(), t.swapcase() if big else t.capitalize()])
+	for t in types:
+		d = CRLF_DATA + _rdata(rng, rng.randint(4, 30)) + b'\r\n'
+		for multi in (False, True):
+			v, want = _range_value(rng, len(CRLF_DATA), multi)
+			out.append(_px(v, d, t, want=want))
+	d = _rdata(rng, 24)
+	for me in methods + ['get', 'Get', 'GET2', 'XGET']:
+		out.append(_px(b'bytes=2-5', d, 'text/plain', me=me))
+		out.append(_px(b'bytes=2-5,8-11', d, 'text/plain', me=me))
+	for s in statuses:
+		out.append(_px(rng.choice([b'bytes=2-5', b'bytes=2-5,8-11']), d, 'text/plain', st0=s))
+	# field names in several letter cases: the Range field and both validators
+	spell = lambda name: [name, name.lower(), name.upper(), name.title(), name.swapcase()]
+	for rn in spell('Range'):
+		for vk in [[[n, 'foo']] for n in spell('ETag')] + [[[n, 'Wed, 30 Sep 2026 17:15:43 GMT']] for n in spell('Last-Modified')] + [[['etag', '"x"'], ['LAST-MODIFIED', 'Wed, 30 Sep 2026 17:15:43 GMT']]]:
+			multi = rng.random() < 0.5
+			v, want = _range_value(rng, len(d), multi)
+			out.append(_px(v, d, rng.choice(CTYPES), rn=rn, vk=vk, want=want))
+	for et in ['"x"', 'W/"x"', 'x', '"a b"', '"\xe9"', '"' + 'e' * 255 + '"']:
+		v, want = _range_value(rng, len(d), rng.random() < 0.5)
+		out.append(_px(v, d, 'text/plain', vk=[['ETag', et]], want=want))
+	# Accept-Ranges given by the application in another letter case than 'bytes' is NOT generated: the clean tree compares the field with
+	# 'bytes' case-sensitively and answers 200 (reported to the lead as an observation; range unit names are case-insensitive)
+	return out
+
+
+def _gen_degenerate(rng, big):
+	out = []
+	for s in DEG_SETS:
+		for unit in (b'bytes=', b'BYTES=', b'', b'bits='):
+			v = unit + s
+			if unit == b'bytes=':
+				out.append({'k': 'parse', 'v': v.hex()})
+			out.append({'k': 'prep', 'v': v.hex(), 'd': _rdata(rng, 24).hex(), 'ct': 'text/plain', 'flags': {}})
+	d = _rdata(rng, 24)
+	for et in DEG_ETAGS:
+		out.append(_px(b'bytes=2-5', d, 'text/plain', vk=[['ETag', et]], noexp=1))
+		out.append(_px(b'bytes=2-5,8-11', d, 'text/plain', vk=[['ETag', et]], noexp=1))
+	for lm in DEG_LASTMOD:
+		out.append(_px(b'bytes=2-5', d, 'text/plain', vk=[['Last-Modified', lm]], noexp=1))
+		out.append(_px(b'bytes=2-5,8-11', d, 'text/plain', vk=[['Last-Modified', lm]], noexp=1))
+	for ct in DEG_CTYPES:
+		c1, c2 = _px(b'bytes=2-5', d, ct, want=[[2, 5]]), _px(b'bytes=8-11, 2-5', d, ct, want=[[8, 11], [2, 5]])
+		c1['m'] = c2['m'] = 0  # the model takes the Content-Type as an opaque octet string; what Headers does to a degenerate one is not its business
+		out.extend([c1, c2])
+	for body in (b'', b' ', b'\n', b'\r\n', b',', b'--', b'\x00', b'\x00\x00'):
+		out.append(_px(b'bytes=0-1', body, 'text/plain', bk=rng.choice(['bytes', 'bio', 'biow'])))
+	return out
+
+
+def _gen_wire(rng, big):
+	"""the Range field as received: the same field value spelled / folded / split over two fields / fragmented differently"""
+	out = []
+	for _ in range(400 if big else 110):
+		n = rng.randint(12, 80)
+		d = _rdata(rng, n)
+		multi = rng.random() < 0.6
+		v, want = _range_value(rng, n, multi)
+		specs = v[len(b'bytes='):].split(b',')
+		name = rng.choice([b'Range', b'range', b'RANGE', b'rAnGe', b'Range'])
+		ows = lambda: rng.choice([b'', b' ', b' ', b'\t', b'  ', b' \t '])
+		fold = lambda: rng.choice([b'', b'', b' ', b'\r\n ', b'\r\n\t', b' \r\n  '])
+		fields, eff = [], None
+		if len(specs) >= 2 and rng.random() < 0.4:  # two fields: the field value is their combination "a, b" (RFC 7230 3.2.2)
+			cut = rng.randint(1, len(specs) - 1)
+			a, b = b'bytes=' + b','.join(specs[:cut]), b','.join(specs[cut:])
+			fields = [name + b':' + ows() + a + ows(), rng.choice([b'Range', b'range', name]) + b':' + ows() + b + ows()]
+			eff = a + b', ' + b
+		else:
+			val = b'bytes=' + specs[0]
+			for s in specs[1:]:
+				val += b',' + fold() + s
+			fields = [name + b':' + ows() + val + ows()]
+			eff = val.replace(b'\r\n', b'')
+		others = [b'Host: example.org', b'Accept: */*', b'If-Range-X: 1', b'User-Agent: x', b'X-Range: bytes=0-0']
+		rng.shuffle(others)
+		others = [o for o in others if o.startswith(b'Host') or rng.random() < 0.5]
+		slots = sorted(rng.randint(0, len(others)) for _ in fields)  # the fields keep their order among the other header fields
+		lines = []
+		for i in range(len(others) + 1):
+			lines.extend(fld for fld, at in zip(fields, slots) if at == i)
+			lines.extend(others[i:i + 1])
+		raw = b'GET /file HTTP/1.1\r\n' + b'\r\n'.join(lines) + b'\r\n\r\n'
+		c = _px(eff, d, rng.choice(CTYPES), rk='wire', raw=raw.hex(), frag=rng.choice([0, 0, 1, 3, 7, 16]), want=want, rt=1)
+		out.append(c)
+	return out
+
+
+def _gen_roundtrip(rng, big):
+	out = []
+	for _ in range(300 if big else 90):
+		n = _size(rng) if rng.random() < 0.3 else rng.randint(6, 80)
+		d = _rdata(rng, n)
+		v, want = _range_value(rng, n, rng.random() < 0.5)
+		out.append(_px(v, d, rng.choice(CTYPES), want=want, rt=1, frag=rng.choice([0, 1, 5, 64, 1000])))
+	return out
+
+
+def _gen_slices(rng, big):
+	"""get_range_content itself on file objects that are not at offset 0, twice with one Range object, on BytesIO and real files"""
+	out = []
+	for _ in range(1200 if big else 320):
+		n = rng.randint(2, 40)
+		fk = rng.choice(['bio', 'bio', 'biow', 'file'])
+		rs = []
+		for _ in range(rng.randint(1, 4)):
+			r = rng.random()
+			a = rng.randint(0, n + 4 if fk != 'file' else n)
+			rs.append([None, max(1, min(a, n) if fk == 'file' else a)] if r < 0.15 else [a, None] if r < 0.3 else [a, a + rng.randint(1, 12)])
+		out.append({'k': 'slice', 'd': _rdata(rng, n).hex(), 'rs': rs, 'fk': fk, 'pos': rng.choice([0, 1, n // 2, n - 1, n, n + 2, 'end']), 'twice': 1})
+	return out
+
+
+def _strengthen(rng, tier):
+	big = tier == 'thorough'
+	out = []
+	for g in (_gen_stateful, _gen_unicode, _gen_lengths, _gen_registries, _gen_degenerate, _gen_wire, _gen_roundtrip, _gen_slices):
+		out.extend(g(rng, big))
+	return out
+
+
+def gen_cases(rng, tier):
+	cases = _gen_cases_base(rng, tier)
+	# the strengthening cases come last and draw from their own stream, so the older cases of a seed stay exactly what they were
+	cases.extend(_strengthen(_random.Random(rng.getrandbits(64)), tier))
+	return cases
+
+
 def _err(exc):
 	from httoop.exceptions import InvalidHeader
 	if isinstance(exc, InvalidHeader):
@@ -345,7 +677,27 @@ def observe(c):
 		from httoop.header.range import Range
 		r = Range.__new__(Range)
 		r.ranges = [tuple(x) for x in c['rs']]
-		return {'out': [x.hex() for x in r.get_range_content(io.BytesIO(bytes.fromhex(c['d'])))]}
+		if 'fk' not in c:
+			return {'out': [x.hex() for x in r.get_range_content(io.BytesIO(bytes.fromhex(c['d'])))]}
+		# a file object that is not at offset 0 (filled by write(), positioned by the application), used twice by one Range object
+		import tempfile
+		d = bytes.fromhex(c['d'])
+		if c['fk'] == 'bio':
+			fd = io.BytesIO(d)
+		else:
+			fd = io.BytesIO() if c['fk'] == 'biow' else tempfile.TemporaryFile()
+			fd.write(d)
+			fd.flush()
+		try:
+			if c['pos'] != 'end':
+				fd.seek(c['pos'])
+			elif c['fk'] == 'bio':
+				fd.seek(0, 2)
+			out = [x.hex() for x in r.get_range_content(fd)]
+			out2 = [x.hex() for x in r.get_range_content(fd)] if c.get('twice') else None
+		finally:
+			fd.close()
+		return {'out': out, 'out2': out2}
 	if k == 'prep':
 		from httoop import Request, Response
 		from httoop.semantic.response import ComposedResponse
@@ -386,7 +738,179 @@ def observe(c):
 				'body': bytes(resp.body).hex(), 'bd': bd, 'ar': hx(h.getbytes('Accept-Ranges'))}
 		except Exception as exc:
 			return _err(exc)
+	if k == 'px':
+		return _observe_px(c)
 	raise ValueError(k)
+
+
+def _observe_px(c):
+	import io
+	import tempfile
+	from httoop import ClientStateMachine, Request, Response, ServerStateMachine
+	from httoop.messages.body import Body
+	from httoop.semantic.response import ComposedResponse
+	_random.seed(hash((c['v'], c['d'])) & 0xffffffff)
+	d = bytes.fromhex(c['d'])
+	v = None if c['v'] is None else bytes.fromhex(c['v'])
+	fl = c.get('flags') or {}
+	bk = c.get('bk', 'bytes')
+	pieces = c.get('pieces', 1)
+	cuts = [len(d) * i // pieces for i in range(pieces + 1)]
+	chunks = [d[a:b] for a, b in zip(cuts, cuts[1:])]
+	hx = lambda x: None if x is None else bytes(x).hex()
+	opened = []
+	try:
+		# 1. the object that carries the representation
+		if bk in ('bytes', 'reassign', 'bodyw'):
+			obj = d
+		elif bk == 'bytearray':
+			obj = bytearray(d)
+		elif bk == 'str':
+			obj = d.decode('utf-8')
+		elif bk == 'bio':
+			obj = io.BytesIO(d)
+		elif bk == 'bodyobj':
+			obj = Body(d)
+		elif bk in ('biow', 'file'):
+			obj = io.BytesIO() if bk == 'biow' else tempfile.TemporaryFile()
+			opened.append(obj)
+			for ch in chunks:
+				obj.write(ch)
+			obj.flush()
+		else:
+			raise ValueError(bk)
+		if 'opos' in c:
+			if c['opos'] == 'end':
+				obj.seek(0, 2)
+			else:
+				obj.seek(c['opos'])
+		# 2. earlier messages served from the same file object
+		for pv in c.get('prior', []):
+			rq, rs = Request(), Response()
+			if pv is not None:
+				rq.headers['Range'] = bytes.fromhex(pv)
+			rs.headers['ETag'] = 'foo'
+			rs.body = obj
+			ComposedResponse(rs, rq).prepare()
+			if c.get('prior_ser'):
+				bytes(rs.body)
+		# 3. the request
+		rk = c.get('rk', 'set')
+		rn = c.get('rn', 'Range')
+		resp = Response()
+		if rk == 'wire':
+			raw = bytes.fromhex(c['raw'])
+			sm = ServerStateMachine('http', 'example.org', 80)
+			step = c.get('frag') or len(raw)
+			got = []
+			for i in range(0, len(raw), step):
+				got.extend(sm.parse(raw[i:i + step]))
+			if len(got) != 1:
+				return {'err': 'escape:wire', 'msg': 'the request octets gave %d messages' % len(got)}
+			req, resp = got[0]
+		else:
+			req = Request()
+			if rk == 'reuse':  # the Request object has served another response before
+				req.headers[rn] = bytes.fromhex(c['other'])
+				r0 = Response()
+				r0.headers['ETag'] = 'foo'
+				r0.body = d
+				ComposedResponse(r0, req).prepare()
+				bytes(r0.body)
+			elif rk in ('replace', 'pop'):
+				req.headers[rn] = bytes.fromhex(c['other'])
+				try:
+					req.headers.element(rn)
+				except Exception:
+					pass
+				if rk == 'pop':
+					req.headers.pop(rn)
+			if rk == 'append':
+				for part in c['parts']:
+					req.headers.append(rn, bytes.fromhex(part))
+			elif rk == 'parse':
+				if v is not None:
+					req.headers.parse(rn.encode() + b': ' + v)
+			elif rk == 'str':
+				req.headers[rn] = v.decode('utf-8')
+			elif rk == 'update':
+				req.headers.update({rn: v})
+			elif rk == 'setdefault':
+				req.headers.setdefault(rn, v)
+			elif rk == 'hset':
+				req.headers.set({'Host': 'example.org', rn: v})
+			elif rk == 'ctor':
+				req = Request(headers={rn: v})
+			elif v is not None:
+				req.headers[rn] = v
+		if 'me' in c:
+			req.method = c['me']
+		# 4. the response
+		for name, value in c.get('vk', [['ETag', 'foo']]):
+			resp.headers[name] = value
+		if 'st0' in c:
+			resp.status = c['st0']
+		if bk == 'reassign':
+			resp.body = b'something else first, longer than the representation' + d + d
+			resp.body.read(7)
+			resp.body = obj
+		elif bk == 'bodyw':
+			for ch in chunks:
+				resp.body.write(ch)
+		else:
+			resp.body = obj
+		if 'bpos' in c:
+			if c['bpos'] == 'end':
+				resp.body.seek(0, 2)
+			else:
+				resp.body.seek(c['bpos'])
+		if 'bread' in c:
+			resp.body.read(c['bread'])
+		if c.get('pre_ser'):
+			bytes(resp.body)
+			len(resp.body)
+		if c['ct'] is not None:
+			resp.headers['Content-Type'] = c['ct']
+		ct0 = resp.headers.getbytes('Content-Type')
+		before = int(resp.status)
+		composed = ComposedResponse(resp, req)
+		composed.prepare()
+		h = resp.headers
+		ct = h.getbytes('Content-Type')
+		bd = None
+		if ct is not None and ct.startswith(b'multipart/') and int(resp.status) == 206 and (ct0 is None or ct != ct0):
+			bd = h.element('Content-Type').boundary.encode('ISO8859-1').hex()
+		body = bytes(resp.body)
+		o = {'before': before, 'status': int(resp.status), 'cr': hx(h.getbytes('Content-Range')), 'ct': hx(ct), 'cl': hx(h.getbytes('Content-Length')),
+			'body': body.hex(), 'bd': bd, 'ar': hx(h.getbytes('Accept-Ranges')), 'ct0': hx(ct0), 'seen': hx(req.headers.getbytes('Range'))}
+		if int(resp.status) == 206:
+			o['ct_text'] = h.get('Content-Type')
+			# serialise twice, prepare twice (same and new ComposedResponse object): nothing may move
+			o['body2'] = bytes(resp.body).hex()
+			if c.get('rt'):
+				wire = bytes(resp) + bytes(resp.headers) + bytes(resp.body)
+				o['wire'] = wire.hex()
+				cl = ClientStateMachine()
+				cl.request = req
+				step = c.get('frag') or len(wire)
+				got = []
+				for i in range(0, len(wire), step):
+					got.extend(cl.parse(wire[i:i + step]))
+				o['rt'] = [[int(r.status), hx(r.headers.getbytes('Content-Range')), hx(r.headers.getbytes('Content-Length')), bytes(r.body).hex()] for r in got]
+			again = []
+			for comp in (composed, ComposedResponse(resp, req)):
+				comp.prepare()
+				again.append([int(resp.status), hx(h.getbytes('Content-Range')), hx(h.getbytes('Content-Length')), hx(h.getbytes('Content-Type')), bytes(resp.body).hex()])
+			o['again'] = again
+		return o
+	except Exception as exc:
+		return _err(exc)
+	finally:
+		for f in opened:
+			try:
+				f.close()
+			except Exception:
+				pass
 
 
 def _rspec(r):
@@ -413,7 +937,9 @@ def coq_case(c, o):
 		return 'CParse %s (Some (%s, %s))' % (X(bytes.fromhex(c['v'])), X(bytes.fromhex(o['unit'])), _rspecs(o['ranges']))
 	if k == 'slice':
 		return 'CSlice %s %s %s' % (X(bytes.fromhex(c['d'])), _rspecs(c['rs']), L([X(bytes.fromhex(x)) for x in o['out']], 'bytes'))
-	if k == 'prep':
+	if k == 'px' and (not c.get('m') or len(o.get('body') or '') > 20000):
+		return None  # oracle-only: outside the model's vocabulary, or a body too long for a Coq string literal (coqc overflows its stack on the case file)
+	if k in ('prep', 'px'):
 		fl = c.get('flags') or {}
 		pre = '(mkpre %s)' % ' '.join(B(x) for x in (not fl.get('resp10'), not fl.get('req10'), not fl.get('status'), not fl.get('post'), not fl.get('noetag'),
 			bool(fl.get('lastmod')), bool(fl.get('arset')), bool(fl.get('chunked')), not fl.get('list')))
@@ -426,6 +952,10 @@ def _preconditions(c, d):
 	fl = c.get('flags') or {}
 	if fl.get('resp10') or fl.get('req10') or fl.get('status') or fl.get('post') or fl.get('chunked') or fl.get('list') or not d:
 		return False
+	if c.get('me', 'GET') != 'GET' or c.get('st0', 200) != 200:
+		return False
+	if c['k'] == 'px':
+		return True  # every px case carries at least one validator field (vk)
 	return (not fl.get('noetag')) or bool(fl.get('lastmod')) or bool(fl.get('arset'))
 
 
@@ -486,10 +1016,71 @@ def oracle(c, o):
 	k = c['k']
 	if 'harness_exception' in o or str(o.get('err', '')).startswith('escape'):
 		return 'unexpected exception %s' % (o,)
-	if k != 'prep':
+	if k == 'slice':
+		return _oracle_slice(c, o)
+	if k not in ('prep', 'px'):
 		return None
 	if o.get('err'):
 		return 'prepare() raised %s' % (o,)
+	fail = _oracle_prepared(c, o)
+	if fail is None and k == 'px':
+		fail = _oracle_px(c, o)
+	if fail is not None and k == 'px':
+		fail = _px_label(c) + fail
+	return fail
+
+
+def _px_label(c):
+	"""first 60 characters = class of the failing input (the framework reports one violation per distinct prefix)"""
+	how = [c.get('bk', 'bytes')] + ['%s=%s' % (key, c[key] if key not in ('prior', 'other', 'parts', 'vk') else '..') for key in ('opos', 'bpos', 'bread', 'pre_ser', 'pieces', 'prior', 'rk', 'rn', 'vk', 'me', 'st0') if key in c]
+	if c.get('ct') is None or any(ord(ch) > 127 for ch in c['ct']):
+		how.append('ct=%r' % (c.get('ct'),))
+	return ('px[' + ' '.join(how))[:34] + '] '
+
+
+def _oracle_slice(c, o):
+	"""get_range_content yields, for every range, exactly those octets of the file - wherever the file position was before, and again on a second use"""
+	d = bytes.fromhex(c['d'])
+	n = len(d)
+	want = []
+	for a, b in c['rs']:
+		want.append(d[max(0, n - b):] if a is None else d[a:] if b is None else d[a:b + 1])
+	want = [x.hex() for x in want]
+	state = 'BytesIO at offset 0' if 'fk' not in c else '%s at offset %s' % (c['fk'], c['pos'])
+	if o['out'] != want:
+		return 'slice[%s]: get_range_content(%r) on %d octets yields %r, expected %r' % (state, c['rs'], n, o['out'], want)
+	if o.get('out2') is not None and o['out2'] != want:
+		return 'slice-twice[%s]: the second get_range_content(%r) on %d octets yields %r, expected %r' % (state, c['rs'], n, o['out2'], want)
+	return None
+
+
+def _oracle_px(c, o):
+	"""what must hold in addition for the extended cases: nothing moves when the prepared partial response is serialised or prepared again,
+	the serialised message reads back as the same slice, the representation's media type comes through code point for code point"""
+	if o['status'] != 206:
+		return None
+	body = o['body']
+	if o.get('body2') is not None and o['body2'] != body:
+		return 'serialising the body of the 206 a second time gives %d octets, first time %d' % (len(o['body2']) // 2, len(body) // 2)
+	for i, a in enumerate(o.get('again') or []):
+		if a != [206, o['cr'], o['cl'], o['ct'], body]:
+			return 'prepare() number %d of the same 206 response changed it: status %s, Content-Range %r, Content-Length %r, %d body octets' % (i + 2, a[0], a[1] and bytes.fromhex(a[1]), a[2] and bytes.fromhex(a[2]), len(a[4]) // 2)
+	if o.get('wire') is not None:
+		wire = bytes.fromhex(o['wire'])
+		head, sep, payload = wire.partition(b'\r\n\r\n')
+		lines = head.split(b'\r\n')
+		cls = [ln.split(b':', 1)[1].strip() for ln in lines[1:] if ln.split(b':', 1)[0].strip().lower() == b'content-length']
+		if not sep or not lines[0].startswith(b'HTTP/1.1 206 ') or payload.hex() != body or cls != [b'%d' % len(payload)]:
+			return 'the serialised 206 is not status line + header + the prepared body with its Content-Length: %r' % (wire[:300],)
+		if o.get('rt') != [[206, o['cr'], o['cl'], body]]:
+			return 'the serialised 206 read back by a client is %r' % ([(r[0], r[1] and bytes.fromhex(r[1]), r[2] and bytes.fromhex(r[2]), len(r[3]) // 2) for r in o.get('rt') or []],)
+	if c['ct'] is not None and o['bd'] is None and o.get('ct_text') is not None and o['ct_text'] != c['ct'] and o['ct_text'].strip() != c['ct'].strip():
+		return 'single range: the Content-Type of the representation came back as %r, given %r' % (o['ct_text'], c['ct'])
+	return None
+
+
+def _oracle_prepared(c, o):
+	k = c['k']
 	d = bytes.fromhex(c['d'])
 	body = bytes.fromhex(o['body'])
 	v = None if c['v'] is None else bytes.fromhex(c['v'])
@@ -498,6 +1089,10 @@ def oracle(c, o):
 	st = o['status']
 	if st == 206 and (v is None or fl.get('status') or fl.get('post')):
 		return 'partial response without a Range request / for a non-GET request / for a non-200 response'
+	if st == 206 and (c.get('me', 'GET') != 'GET' or c.get('st0', 200) not in (200, 206)):
+		return 'partial response for a %s request / a response of status %s' % (c.get('me', 'GET'), c.get('st0', 200))
+	if c.get('st0') == 206:
+		return None  # the application itself said 206
 	if v is None:
 		return None
 	# clause 3: a syntactically invalid Range field never yields a partial response
@@ -517,7 +1112,9 @@ def oracle(c, o):
 		if m and int(m.group(1)) < int(m.group(2)) and (st != o['before'] or body != d or o['cr'] is not None):
 			return 'foreign-unit-not-ignored: a Range field whose range unit is not bytes changed the response: %r (status %d, Content-Range %r, %d body octets)' % (v, st, o['cr'] and bytes.fromhex(o['cr']), len(body))
 		return None
-	if not ok_pre:
+	if not ok_pre and st != 206:
+		return None  # (a 206 must carry the right octets even where the statement does not demand one)
+	if c.get('noexp') and st != 206:
 		return None
 	specs = _closed_specs(v)
 	if specs is None:
@@ -559,9 +1156,14 @@ def oracle(c, o):
 			return 'multi: ' + parts
 		if [p[1] for p in parts] != [d[f:l + 1] for f, l in uniq]:
 			return 'multi: parts are not the requested slices in ascending order'
+		ctb = None if c['ct'] is None else bytes.fromhex(o['ct0']) if o.get('ct0') is not None else c['ct'].encode()
 		for (hdr, _), (f, l) in zip(parts, uniq):
-			if b'Content-Range: bytes %d-%d/%d' % (f, l, n) not in hdr or b'Content-Type: ' + c['ct'].encode() not in hdr:
+			if b'Content-Range: bytes %d-%d/%d' % (f, l, n) not in hdr or (ctb is not None and b'Content-Type: ' + ctb not in hdr and b'Content-Type: ' + ctb.strip() not in hdr):
 				return 'multi: part headers %r for range %d-%d' % (hdr, f, l)
+			if ctb is not None and ctb.startswith(b'=?utf-8?b?') and ctb.endswith(b'?='):
+				import base64
+				if base64.b64decode(ctb[10:-2]).decode('utf-8') != c['ct']:
+					return 'multi: the Content-Type of the parts %r is not the given text %r code point for code point' % (ctb, c['ct'])
 		if o['cl'] is None or bytes.fromhex(o['cl']) != b'%d' % len(body):
 			return 'multi: Content-Length %r for a body of %d octets' % (o['cl'], len(body))
 	return None
@@ -572,8 +1174,8 @@ def classify(c, o, fail):
 
 
 def nontrivial(c, o):
-	if c['k'] == 'prep':
-		return ('prep', c['v'], c['d'][:16], len(c['d']), o.get('status'), repr(sorted((c.get('flags') or {}).items())))
+	if c['k'] in ('prep', 'px'):
+		return (c['k'], c['v'], c['d'][:16], len(c['d']), o.get('status'), repr(sorted((c.get('flags') or {}).items())))
 	if c['k'] == 'parse':
 		return ('parse', c['v'])
 	if c['k'] == 'int' and o.get('v') is not None:
